@@ -309,66 +309,52 @@ fn c02_table_history_3() {
 
 // ---------------------------------------------------------------------------
 // find_closest_nodes: exactly the min(n,|S|) closest, ascending, each once.
-// Modular: get_bucket_index_for_key is replaced by its contract (the result is
-// the first differing bit, proved above); bucket *positions* of the nodes and of
-// the key are concrete per harness instance, all other id/key bits symbolic.
+// The table is the literal 256-bucket table with B nodes pushed into the buckets their ids
+// belong to (that add_node puts them there is C02/table/*). Bucket *positions* of the nodes
+// and of the key are concrete per harness instance; every id/key bit below the first
+// differing bit is symbolic (>= 2^(255-pos) values per node). The real bucket walk (all 256
+// offsets), the real distance(), the real sort_by and take/map/collect are executed.
 // ---------------------------------------------------------------------------
 
-static mut STUB_TARGET: usize = 0;
-fn contract_stub_bucket_for_key(_t: &KademliaRoutingTable, _k: &DhtKey) -> usize {
-    unsafe { STUB_TARGET }
-}
-
-// Contract of KBucket::get_nodes: "returns exactly the bucket's entries" (proved on the real fn by
-// c02_kbucket_get_nodes_contract). CBMC cannot constant-propagate Vec lengths read back from the
-// 8 KiB bucket array, which makes the 512 inner loops of the bucket walk unwind to the global bound;
-// the stub therefore serves each bucket's entries from harness-owned vectors of known length (the
-// same NodeInfo values that were pushed into the real table) and asserts that the ghost view agrees
-// with the real bucket (`C02/fcn/ghost_view_matches_bucket`).
-const MAX_GROUPS: usize = 4;
-static mut GHOST_BUCKET: [*const KBucket; MAX_GROUPS] = [std::ptr::null(); MAX_GROUPS];
-static mut GHOST_NODES: [*const Vec<NodeInfo>; MAX_GROUPS] = [std::ptr::null(); MAX_GROUPS];
-static EMPTY_NODES: [NodeInfo; 0] = [];
-fn contract_stub_get_nodes(b: &KBucket) -> &[NodeInfo] {
-    let p = b as *const KBucket;
-    let mut g = 0;
-    while g < MAX_GROUPS {
-        unsafe {
-            if !GHOST_BUCKET[g].is_null() && std::ptr::eq(p, GHOST_BUCKET[g]) {
-                let v: &Vec<NodeInfo> = &*GHOST_NODES[g];
-                assert!(b.nodes.len() == v.len(), "C02/fcn/ghost_view_matches_bucket");
-                return v.as_slice();
-            }
+/// An id whose first bit differing from `me` is exactly `pos` (all lower-order bits symbolic).
+fn id_at(me: &[u8; 32], pos: usize) -> [u8; 32] {
+    let d: [u8; 32] = kani::any();
+    let mut id = *me;
+    let byte = pos / 8;
+    let sh = (pos % 8) as u32;
+    let mut i = 0;
+    while i < 32 {
+        if i == byte {
+            id[i] = me[i] ^ ((d[i] & (0xffu8 >> sh)) | (0x80u8 >> sh));
+        } else if i > byte {
+            id[i] = me[i] ^ d[i];
         }
-        g += 1;
+        i += 1;
     }
-    assert!(b.nodes.len() == 0, "C02/fcn/ghost_view_matches_bucket");
-    &EMPTY_NODES
+    id
 }
 
-fn fcn_check<const B: usize>(target: usize, pos: [usize; B]) {
+fn fcn_check<const B: usize>(target: Option<usize>, pos: [usize; B]) {
     let me: [u8; 32] = kani::any();
-    let key: [u8; 32] = kani::any();
-    // contract of get_bucket_index_for_key (C02/bucket_index/key_first_differing_bit)
-    kani::assume(spec_first_diff(&me, &key) == target);
+    // target == None: the key is the local id itself (bucket 255 by the `same key` rule)
+    let key: [u8; 32] = match target {
+        Some(t) => id_at(&me, t),
+        None => me,
+    };
+    let tb = match target {
+        Some(t) => t,
+        None => 255,
+    };
+    assert!(spec_first_diff(&me, &key) == tb, "C02/fcn/stub_matches_contract");
     unsafe {
-        STUB_TARGET = target;
+        STUB_TARGET = tb;
     }
     let mut t = ManuallyDrop::new(literal_empty_table(me, 8));
-    let mut ghost: [ManuallyDrop<Vec<NodeInfo>>; MAX_GROUPS] = [
-        ManuallyDrop::new(Vec::with_capacity(B)),
-        ManuallyDrop::new(Vec::with_capacity(B)),
-        ManuallyDrop::new(Vec::with_capacity(B)),
-        ManuallyDrop::new(Vec::with_capacity(B)),
-    ];
-    let mut ghost_pos = [usize::MAX; MAX_GROUPS];
     let mut ids = [[0u8; 32]; B];
     let mut i = 0;
     while i < B {
-        let id: [u8; 32] = kani::any();
-        // representation invariant of the table (proved for add/remove histories above)
-        kani::assume(id != me);
-        kani::assume(spec_first_diff(&me, &id) == pos[i]);
+        let id = id_at(&me, pos[i]);
+        // representation invariant of the table (proved for add/remove histories): ids distinct
         let mut j = 0;
         while j < i {
             kani::assume(ids[j] != id);
@@ -376,27 +362,7 @@ fn fcn_check<const B: usize>(target: usize, pos: [usize; B]) {
         }
         ids[i] = id;
         t.buckets[pos[i]].nodes.push(mk_node(id));
-        // ghost view, grouped by bucket (positions are concrete)
-        let mut g = 0;
-        while g < MAX_GROUPS {
-            if ghost_pos[g] == pos[i] || ghost_pos[g] == usize::MAX {
-                ghost_pos[g] = pos[i];
-                ghost[g].push(mk_node(id));
-                break;
-            }
-            g += 1;
-        }
         i += 1;
-    }
-    let mut g = 0;
-    while g < MAX_GROUPS {
-        if ghost_pos[g] != usize::MAX {
-            unsafe {
-                GHOST_BUCKET[g] = &t.buckets[ghost_pos[g]] as *const KBucket;
-                GHOST_NODES[g] = &*ghost[g] as *const Vec<NodeInfo>;
-            }
-        }
-        g += 1;
     }
     let n: usize = kani::any();
     kani::assume(n <= 64);
@@ -446,45 +412,45 @@ fn fcn_check<const B: usize>(target: usize, pos: [usize; B]) {
     }
 }
 
-// @verif property=C02 class=complete fns=KBucket::get_nodes tier=quick,thorough panic=violation
-#[kani::proof]
-#[kani::unwind(4)]
-fn c02_kbucket_get_nodes_contract() {
-    let mut b = ManuallyDrop::new(KBucket { nodes: Vec::with_capacity(2), max_size: 8 });
-    if kani::any() {
-        b.nodes.push(mk_node(kani::any()));
-    }
-    if kani::any() {
-        b.nodes.push(mk_node(kani::any()));
-    }
-    let s = b.get_nodes();
-    assert!(s.len() == b.nodes.len() && s.as_ptr() == b.nodes.as_ptr(), "C02/kbucket/get_nodes_returns_exactly_the_entries");
+// Contract of get_bucket_index_for_key (C02/bucket_index/key_first_differing_bit, proved by Verus
+// unit `bucket` and Kani c02_bucket_index_key): the result is the first bit in which key and local
+// id differ, 255 when equal. fcn_check constructs the key so that this index is STUB_TARGET, and
+// asserts that (C02/fcn/stub_matches_contract), so the stub returns exactly what the contract says.
+static mut STUB_TARGET: usize = 0;
+fn contract_stub_bucket_for_key(t: &KademliaRoutingTable, k: &DhtKey) -> usize {
+    let _ = (t, k);
+    unsafe { STUB_TARGET }
 }
 
 macro_rules! fcn_harness {
     ($name:ident, $b:expr, $t:expr, $pos:expr) => {
         #[kani::proof]
         #[kani::stub(KademliaRoutingTable::get_bucket_index_for_key, contract_stub_bucket_for_key)]
-        #[kani::stub(KBucket::get_nodes, contract_stub_get_nodes)]
-        #[kani::unwind(257)]
+        #[kani::unwind(6)]
         fn $name() {
             fcn_check::<$b>($t, $pos);
         }
     };
 }
 
-// @verif property=C02 class=bounded bound="2 nodes; key bucket 100, node buckets [99,102]" fns=KademliaRoutingTable::find_closest_nodes uses=fcn_check,fcn_harness,contract_stub_get_nodes tier=thorough panic=violation
-fcn_harness!(c02_fcn_2_t100_far_near, 2, 100, [99, 102]);
-// @verif property=C02 class=bounded bound="1 node; key bucket 250, node bucket [255]" fns=KademliaRoutingTable::find_closest_nodes uses=fcn_check,fcn_harness,contract_stub_get_nodes tier=thorough panic=violation
-fcn_harness!(c02_fcn_1_t250_top, 1, 250, [255]);
-// @verif property=C02 class=bounded bound="3 nodes; key bucket 100, node buckets [99,99,102]" fns=KademliaRoutingTable::find_closest_nodes uses=fcn_check,fcn_harness,contract_stub_get_nodes tier=quick,thorough panic=violation
-fcn_harness!(c02_fcn_3_t100_far_far_near, 3, 100, [99, 99, 102]);
-// @verif property=C02 class=bounded bound="3 nodes; key bucket 250, node buckets [255,255,0]" fns=KademliaRoutingTable::find_closest_nodes uses=fcn_check,fcn_harness,contract_stub_get_nodes tier=quick,thorough panic=violation
-fcn_harness!(c02_fcn_3_t250_top_saturation, 3, 250, [255, 255, 0]);
-// @verif property=C02 class=bounded bound="3 nodes; key bucket 3, node buckets [0,0,255]" fns=KademliaRoutingTable::find_closest_nodes uses=fcn_check,fcn_harness,contract_stub_get_nodes tier=quick,thorough panic=violation
-fcn_harness!(c02_fcn_3_t3_bottom_saturation, 3, 3, [0, 0, 255]);
-// @verif property=C02 class=bounded bound="3 nodes; key bucket 128, node buckets [128,128,128]" fns=KademliaRoutingTable::find_closest_nodes uses=fcn_check,fcn_harness,contract_stub_get_nodes tier=quick,thorough panic=violation
-fcn_harness!(c02_fcn_3_t128_same_bucket, 3, 128, [128, 128, 128]);
+// Loop bounds: the global bound 6 covers every loop whose trip count is the number of nodes
+// (<= 4: bucket contents, sort, clone, collect, the harness's own loops); the loops whose trip
+// count is a constant of the code get that constant (256 buckets, 32 id bytes). Unwinding
+// assertions are on: a bound that is too small makes the harness UNDECIDED, never green.
+// @verif property=C02 class=bounded bound="1 node; key bucket 250, node bucket [255]" fns=KademliaRoutingTable::find_closest_nodes uses=fcn_check,fcn_harness,id_at unwindset="find_closest_nodes~offset:257,literal_empty_table:257,DhtKey::distance:33,spec_first_diff:257,dist_lt:33,id_at:33,memcmp:33,spec_is_xor:33" cbmc_args="--max-field-sensitivity-array-size 300" tier=quick,thorough panic=violation
+fcn_harness!(c02_fcn_1_t250_top, 1, Some(250), [255]);
+// @verif property=C02 class=bounded bound="2 nodes; key bucket 100, node buckets [99,102]" fns=KademliaRoutingTable::find_closest_nodes uses=fcn_check,fcn_harness,id_at unwindset="find_closest_nodes~offset:257,literal_empty_table:257,DhtKey::distance:33,spec_first_diff:257,dist_lt:33,id_at:33,memcmp:33,spec_is_xor:33" cbmc_args="--max-field-sensitivity-array-size 300" tier=quick,thorough panic=violation
+fcn_harness!(c02_fcn_2_t100_far_near, 2, Some(100), [99, 102]);
+// @verif property=C02 class=bounded bound="3 nodes; key bucket 100, node buckets [99,99,102]" fns=KademliaRoutingTable::find_closest_nodes uses=fcn_check,fcn_harness,id_at unwindset="find_closest_nodes~offset:257,literal_empty_table:257,DhtKey::distance:33,spec_first_diff:257,dist_lt:33,id_at:33,memcmp:33,spec_is_xor:33" cbmc_args="--max-field-sensitivity-array-size 300" tier=quick,thorough panic=violation
+fcn_harness!(c02_fcn_3_t100_far_far_near, 3, Some(100), [99, 99, 102]);
+// @verif property=C02 class=bounded bound="3 nodes; key bucket 250, node buckets [255,255,0]" fns=KademliaRoutingTable::find_closest_nodes uses=fcn_check,fcn_harness,id_at unwindset="find_closest_nodes~offset:257,literal_empty_table:257,DhtKey::distance:33,spec_first_diff:257,dist_lt:33,id_at:33,memcmp:33,spec_is_xor:33" cbmc_args="--max-field-sensitivity-array-size 300" tier=quick,thorough panic=violation
+fcn_harness!(c02_fcn_3_t250_top_saturation, 3, Some(250), [255, 255, 0]);
+// @verif property=C02 class=bounded bound="3 nodes; key bucket 3, node buckets [0,0,255]" fns=KademliaRoutingTable::find_closest_nodes uses=fcn_check,fcn_harness,id_at unwindset="find_closest_nodes~offset:257,literal_empty_table:257,DhtKey::distance:33,spec_first_diff:257,dist_lt:33,id_at:33,memcmp:33,spec_is_xor:33" cbmc_args="--max-field-sensitivity-array-size 300" tier=quick,thorough panic=violation
+fcn_harness!(c02_fcn_3_t3_bottom_saturation, 3, Some(3), [0, 0, 255]);
+// @verif property=C02 class=bounded bound="3 nodes; key bucket 128, node buckets [128,128,128]" fns=KademliaRoutingTable::find_closest_nodes uses=fcn_check,fcn_harness,id_at unwindset="find_closest_nodes~offset:257,literal_empty_table:257,DhtKey::distance:33,spec_first_diff:257,dist_lt:33,id_at:33,memcmp:33,spec_is_xor:33" cbmc_args="--max-field-sensitivity-array-size 300" tier=quick,thorough panic=violation
+fcn_harness!(c02_fcn_3_t128_same_bucket, 3, Some(128), [128, 128, 128]);
+// @verif property=C02 class=bounded bound="3 nodes; key == local id, node buckets [255,254,0]" fns=KademliaRoutingTable::find_closest_nodes uses=fcn_check,fcn_harness,id_at unwindset="find_closest_nodes~offset:257,literal_empty_table:257,DhtKey::distance:33,spec_first_diff:257,dist_lt:33,id_at:33,memcmp:33,spec_is_xor:33" cbmc_args="--max-field-sensitivity-array-size 300" tier=quick,thorough panic=violation
+fcn_harness!(c02_fcn_3_key_is_self, 3, None, [255, 254, 0]);
 
 // Native replay slot: `cargo kani playback` compiles the crate with cfg(test)+cfg(kani);
 // the driver writes the generated concrete-playback unit test here before running it.
